@@ -3,6 +3,6 @@
 patch=$(readlink -f $1); shift
 cd /repo || exit 2
 if ! git diff --quiet; then echo "repo dirty"; exit 2; fi
-git apply "$patch" 2>/dev/null || patch -p1 -F3 -s < "$patch" || { echo "PATCH DOES NOT APPLY"; git checkout -- .; exit 3; }
+git apply "$patch" 2>/dev/null || patch -p1 -F3 -s < "$patch" || { echo "PATCH DOES NOT APPLY"; git checkout -- .; git clean -fdq; exit 3; }
 for p in "$@"; do (cd /verif && bin/llgoverif check $p 2>&1 | grep -E "VIOLATED|UNDECIDED|VIOLATION|tier=|could not" | grep -v "^VIOLATION" | head -8); done
 git checkout -- . && git clean -fdq; find . -name "*.orig" -delete
